@@ -365,6 +365,19 @@ def _pt_eq(p, q, rtol):
         return p == q
 
 
+def l2d_trusted_prefix(cfg, stacks, pts):
+    """How many leading suggestions come out of the stacks that were part of the pickled state."""
+    left = list(stacks)
+    n = 0
+    for p in pts:
+        i = p[0] if cfg.get("wrap") == "balancing" else 0
+        if left[i] <= 0:
+            break
+        left[i] -= 1
+        n += 1
+    return n
+
+
 def demands(cfg, mech):
     """What the property demands of this (learner, mechanism): (loss: None|'exact'|'close', ask: likewise)."""
     kind = cfg["kind"]
@@ -501,6 +514,16 @@ def check_case(chk, cfg, seed, stats, workdir, tag):
             stats["ask_raises"] += 1
             return ([("raised", type(e).__name__)], [0.0])
 
+    l2d_stacks = None
+    if cfg["kind"] == "l2d":
+        kids2 = l.learners if cfg.get("wrap") == "balancing" else [base_of(l, cfg)]
+        l2d_stacks = [len(k._stack) for k in kids2]
+        # F6 (C10): a Learner2D whose cached combined interpolator is stale reports loss(real=False) != loss()
+        # with nothing pending; BalancingLearner then ranks its children differently from a fresh copy
+        if cfg.get("wrap") == "balancing" and any(not k.pending_points and not same_val(float(k.loss(real=False)), float(k.loss()))
+                                                  for k in kids2):
+            stats["l2d_skipped_stale_ip_combined_F6"] = stats.get("l2d_skipped_stale_ip_combined_F6", 0) + 1
+            return True
     answers = {}
     if "copy_from" in copies and twin_ok:
         answers["copy_from"] = ask10(copies["copy_from"])
@@ -520,16 +543,15 @@ def check_case(chk, cfg, seed, stats, workdir, tag):
         else:
             rt = 0 if want_ask == "exact" else ASK_RTOL
             pairs = list(zip(a0, a1)) if isinstance(a0, list) else [(a0, a1)]
-            if cfg["kind"] == "l2d" and not isinstance(a0, list) and len(a0[0]) == len(a1[0]):
-                # Learner2D ranks triangles by losses that carry ~1e-8 of solver noise (iterative gradient
-                # estimate): on symmetric data two triangles tie and the copy may serve them in the other
-                # order.  A position counts as equal if the points agree or the promised improvements tie.
-                a1 = (list(a1[0]), list(a1[1]))
-                for i in range(len(a0[0])):
-                    if not _pt_eq(a0[0][i], a1[0][i], 0) and _numeric(a0[1][i]) and close_val(a0[1][i], a1[1][i], 1e-6):
-                        a1[0][i] = a0[0][i]
-                        stats["l2d_ties_accepted"] = stats.get("l2d_ties_accepted", 0) + 1
-                pairs = [(a0, a1)]
+            if cfg["kind"] == "l2d" and not isinstance(a0, list):
+                # Learner2D: only the suggestions served from the pickled stack are a function of the pickled
+                # state.  Beyond it _fill_stack triangulates data + pending_points, a SET whose iteration order
+                # differs between original and copy (the reason the property exempts AverageLearner1D), and
+                # exactly tied triangles (uniform loss, symmetric data) are then served in a different order.
+                n_ok = l2d_trusted_prefix(cfg, l2d_stacks, a0[0])
+                stats["l2d_prefix_compared"] = stats.get("l2d_prefix_compared", 0) + n_ok
+                a0p, a1p = (list(a0[0])[:n_ok], []), (list(a1[0])[:n_ok], [])
+                pairs = [(a0p, a1p)]
             ok = all((x is None) == (y is None) and (x is None or (
                 points_equal(list(x[0]), list(y[0]), rt) and
                 # "suggestions" are the points; the promised improvements are only sanity-checked, and not at all
@@ -587,7 +609,7 @@ def _first_diff(a, b, path=""):
 def continued_cfg(rng, wrap):
     cfg = {"kind": "l1d", "continued": True, "vecf": rng.random() < 0.3, "a": rng.choice([0.9, 1.3, 1.7, 1.9]),
            "pos": rng.choice([0.3, -0.45, 0.62, 0.05]), "w": rng.choice([0.02, 0.01, 0.04]),
-           "loss": rng.choice(["default", "default", "triangle"]), "n": rng.randint(12, 40), "wrap": wrap}
+           "loss": rng.choice(["default", "default", "triangle"]), "n": rng.randint(20, 45), "wrap": wrap}
     if wrap == "balancing":
         cfg["strategy"] = rng.choice(["loss_improvements", "npoints", "cycle"])
         cfg["poss"] = [cfg["pos"], -cfg["pos"]]
@@ -626,7 +648,8 @@ def inside_box(k, y):
     return bool(np.all(np.asarray(y) >= np.asarray(lo)) and np.all(np.asarray(y) <= np.asarray(hi)))
 
 
-def continued_case(chk, cfg, seed, stats):
+def continued_build(cfg, seed):
+    """The history up to the moment of pickling (deterministic in the seed)."""
     rng = random.Random(seed)
     l = continued_make(cfg)
     f = l.function
@@ -638,28 +661,24 @@ def continued_case(chk, cfg, seed, stats):
         rng.shuffle(pts)
         for p in pts:
             l.tell(p, f(p))
-    kids = l1d_children(l, cfg)
-    stale = sum(stale_intervals(k) for k in kids)
-    stats["continued_cases"] += 1
-    stats["continued_with_stale_losses"] += stale > 0
+    return l
+
+
+def continued_case(chk, cfg, seed, stats):
     name = name_of(cfg)
     replay = {"cfg": cfg, "seed": seed}
-    for mech in ("pickle", "cloudpickle"):
+    for mi, mech in enumerate(("pickle", "cloudpickle")):
+        o = continued_build(cfg, seed)           # the genuine original, one per mechanism (the run goes on in place)
+        kids = l1d_children(o, cfg)
+        stale = sum(stale_intervals(k) for k in kids)
+        if mi == 0:
+            stats["continued_cases"] += 1
+            stats["continued_with_stale_losses"] += stale > 0
         ser = pickle if mech == "pickle" else cloudpickle
-        o = ser.loads(ser.dumps(l))          # the "original" continues from an identical twin so that every
-        c = ser.loads(ser.dumps(l))          # mechanism starts from the same state; see below for the real one
-        o = l if mech == "cloudpickle" else o
-        if mech == "pickle":
-            # the genuine original is used for the last mechanism; for the first one a pickled twin stands in
-            # only if it is indistinguishable now -- otherwise compare against the genuine original right away
-            if not (same_val(float(o.loss()), float(l.loss())) and same_val(data_of(o, cfg_plain(cfg)), data_of(l, cfg_plain(cfg)))):
-                o = l
+        c = ser.loads(ser.dumps(o))
         r2 = random.Random(seed + 1)
         for step in range(8):
-            try:
-                cand = list(o.ask(3, tell_pending=False)[0])
-            except Exception:
-                break
+            cand = list(o.ask(3, tell_pending=False)[0])
             kk = l1d_children(o, cfg)
             pick = None
             for p in cand + [_mid(o, cfg, r2) for _ in range(4)]:
